@@ -70,6 +70,7 @@ def stepOp (recordLog : WExpr → WMeta → List String) (e : WExpr) (mask : Nat
     match s.spans.lookup k with
     | some (m, _) => pure ({ spans := s.spans.filter (·.1 ≠ k) }, showLog (if (mask / 8) % 2 == 1 then recordLog e m else []))
     | none => pure (s, "-")
+  | ["rc", _, _] => some (s, "-")                 -- a later `Span::record`: nothing is written (the span's stored fields change)
   | ["mt", n, k] => do
     let cnt := (← n.toNat?) * (← k.toNat?)
     let one := recordLog e ⟨3, 0⟩
